@@ -1,7 +1,7 @@
 EXPLANATION = ('C10: ESmry::get -> loadData(vectList) is executed on an in-memory summary data file: the element offsets it seeks to (unformatted: record heads/tails every 1000 values; formatted: 17-character columns, 4 per line, '
   'hard break every 1000) must hit exactly the value of vector p in each ministep - PARAMS written by the real unformatted writer, respectively by a reference formatter of the text layout; plus the NUMS packing (C07 harness).')
 BOUNDS = 'vector counts 1, 1000, 1001, 2500 and 4001 (thorough), positions p at the block boundaries and ends (one path each), two ministeps, arbitrary bit pattern of the probed value (unformatted)'
-OUTSIDE = 'SMSPEC parsing (keywords, units, start date), restart-chain assembly, ESMRY/ExtESmry files, make_esmry_file, the formatted writer for REAL (snprintf)'
+OUTSIDE = 'SMSPEC parsing (keywords, units, start date), restart-chain assembly, the ESMRY header (START/KEYCHECK/UNITS) and file-system handling of ExtESmry (its per-vector loader is covered), make_esmry_file, the formatted writer for REAL (snprintf)'
 ASSUMPTIONS = ['the ESmry object is laid out by the harness; std::fstream family and std::chrono::system_clock::now are models', 'strtof on concrete text computed by the executor']
 TUS = ['opm/io/eclipse/EclOutput.cpp', 'opm/io/eclipse/EclUtil.cpp', 'opm/io/eclipse/ESmry.cpp']
 def jobs(tier):
@@ -9,4 +9,7 @@ def jobs(tier):
     for n in ((1001, 2500, 4001) if tier == 'quick' else (1, 2, 1000, 1001, 2500, 4001, 4500)):
         out.append(dict(name='binary_n%d' % n, src='h_esmry.cpp', defs={'NVECT': n}, entry='h_binary', tus=TUS, fp='ieee', loopmax=100000, maxsteps=400000000, bounds='%d vectors, unformatted' % n))
         out.append(dict(name='formatted_n%d' % n, src='h_esmry.cpp', defs={'NVECT': n}, entry='h_formatted', tus=TUS, fp='ieee', loopmax=1000000, maxsteps=800000000, timeout=1500, bounds='%d vectors, formatted' % n))
+    for nt in ((1001,) if tier == 'quick' else (1, 1000, 1001, 2500)):
+        out.append(dict(name='extesmry_nt%d' % nt, src='h_extesmry.cpp', defs={'NTSTEP': nt}, entry='h_extesmry', tus=TUS + ['opm/io/eclipse/ExtESmry.cpp'], fp='ieee', loopmax=1000000, maxsteps=800000000, timeout=1500,
+                        bounds='ESMRY layout, 3 vectors, %d ministeps, probed ministep at the record-block boundaries and ends' % nt))
     return out
